@@ -414,6 +414,7 @@ type c05Run struct {
 	ops     []string // Coq terms
 	ids     [][2]int
 	reloads [][2]c05State
+	cacheGone []bool
 	tags    map[string]bool
 	idsAfterReload bool
 	sawReload      bool
@@ -742,6 +743,7 @@ func (r *c05Run) reload() {
 	st := r.st
 	st.Lock()
 	before := r.p.state(st)
+	st.Cache("verif-c05-cache-key", "verif-c05-cache-value") // runtime-only by design: must not be saved
 	st.modified = true // make the Unlock below checkpoint through the real path even if the last operations were read-only
 	st.Unlock()
 	st2, err := ReadState(r.be, bytes.NewReader(r.be.last))
@@ -749,6 +751,10 @@ func (r *c05Run) reload() {
 		panic(fmt.Sprintf("ReadState failed: %v\n%s", err, r.be.last))
 	}
 	after := r.p.state(st2)
+	st2.Lock()
+	cached := st2.Cached("verif-c05-cache-key")
+	st2.unlock()
+	r.cacheGone = append(r.cacheGone, cached == nil && !bytes.Contains(r.be.last, []byte("verif-c05-cache")))
 	r.reloads = append(r.reloads, [2]c05State{before, after})
 	r.st = st2
 	r.sawReload = true
@@ -791,7 +797,11 @@ func c05Exec(in c05In) vh.Out {
 		rlItems[i] = "(" + p[0].coq() + ", " + p[1].coq() + ")"
 		diffs = append(diffs, c05Diff(p[0], p[1]))
 	}
-	coq := "(Case " + vh.CoqList(r.ops) + " " + vh.CoqList(idItems) + " " + vh.CoqList(rlItems) + " " + final.coq() + ")"
+	cg := make([]string, len(r.cacheGone))
+	for i, b := range r.cacheGone {
+		cg[i] = vh.CoqBool(b)
+	}
+	coq := "(Case " + vh.CoqList(r.ops) + " " + vh.CoqList(idItems) + " " + vh.CoqList(rlItems) + " " + final.coq() + " " + vh.CoqList(cg) + ")"
 	var tags []string
 	for t := range r.tags {
 		tags = append(tags, t)
@@ -803,7 +813,44 @@ func c05Exec(in c05In) vh.Out {
 		tags = append(tags, "ids-after-reload")
 	}
 	sort.Strings(tags)
-	obs := map[string]interface{}{"ids": r.ids, "reload_diffs": diffs, "final": final, "reloads": len(r.reloads)}
+	// the other clauses of the monitor, evaluated here too so that classify can insist that the null-data entry is the ONLY
+	// thing wrong with a case it maps to the recorded finding
+	otherWrong := false
+	lastID := map[int]int{}
+	for _, p := range r.ids {
+		if p[1] <= lastID[p[0]] {
+			otherWrong = true
+		}
+		lastID[p[0]] = p[1]
+	}
+	uniq := func(s c05State) bool {
+		seen := map[string]bool{}
+		for _, n := range s.Notices {
+			k := fmt.Sprint(n.Uid != nil, n.Uid != nil && *n.Uid > 0, n.Type, "\x00", n.Key)
+			if n.Uid != nil {
+				k += fmt.Sprint("\x00", *n.Uid)
+			}
+			if seen[k] {
+				return false
+			}
+			seen[k] = true
+		}
+		return true
+	}
+	if !uniq(final) {
+		otherWrong = true
+	}
+	for _, p := range r.reloads {
+		if !uniq(p[0]) || !uniq(p[1]) {
+			otherWrong = true
+		}
+	}
+	for _, b := range r.cacheGone {
+		if !b {
+			otherWrong = true
+		}
+	}
+	obs := map[string]interface{}{"ids": r.ids, "reload_diffs": diffs, "other_clause_fails": otherWrong, "cache_gone": r.cacheGone, "final": final, "reloads": len(r.reloads)}
 	return vh.Out{Observed: obs, Coq: coq, NonTrivial: r.idsAfterReload && len(final.Tasks)+len(final.Changes) > 0, Tags: tags}
 }
 
